@@ -353,7 +353,9 @@ func (c *ctx) stmt(st ast.Stmt) (pre []ast.Stmt, self ast.Stmt, post []ast.Stmt)
 			pre = append(pre, c.yield("chan"))
 			post = append(post, c.yield("chandone"))
 		case o.closeCall:
+			// close wakes every waiter; the closing goroutine can be preempted right after it
 			pre = append(pre, c.yield("close"))
+			post = append(post, c.yield("closed"))
 		case o.waitCall:
 			post = append(post, c.yield("waited"))
 		case o.atomicCall:
